@@ -137,7 +137,7 @@ class C20(HistoryProperty):
         # original), so for graphs that contain one only values / failures / keys are compared, not which effects ran
         cfg = gen.swarm_cfg(rng, off=("shape_change",), on=("dsclass",))
         cfg["plain_case_conditions"] = rng.random() < 0.4  # case(...).when(<plain value>, X): fails at evaluation, before and after alike
-        cfg["lib_steps"] = rng.choice([False, False, "picklable", "picklable", "all"])  # pipeline steps taken from labrea.functions (the library's own helpers)
+        cfg["lib_steps"] = rng.choice([False, "picklable", "picklable", "all"])  # pipeline steps taken from labrea.functions (the library's own helpers)
         spec = gen.prune(gen.gen_spec(rng, cfg))
         for n in spec["nodes"]:
             if n["k"] == "dsclass" and rng.random() < 0.5:
